@@ -156,11 +156,28 @@ func ZZ_C14_MergeAlgebra() {
 	zzvf.Reach("mergealgebra")
 }
 
-// merging counters equals the counter that saw the union
+// inductive form of "merge equals union": offering an item commutes with merging, from
+// ARBITRARY states (with the merge algebra this gives merge(offer-all(A), offer-all(B)) ==
+// offer-all(A u B) for sets of any size, by induction on |A| — stated, not mechanised)
+//vf: qtimeout=30s deadline=8m t.deadline=40m
+func ZZ_C14_OfferCommutesWithMerge() {
+	p := zzPrecSmall()
+	x, y := zzState(p), zzState(p)
+	a := zzvf.Uint32()
+	right := x.Merge(y)
+	right.offerHashed(a)
+	x.offerHashed(a)
+	left := x.Merge(y)
+	zzvf.Assert(zzvf.Same(zzRegs(left), zzRegs(right)), "merge/offer-commutes-with-merge")
+	zzvf.Reach("offercommutes")
+}
+
+// bounded instance from the empty state: merging counters equals the counter that saw
+// the union (|A|,|B| <= 1 quick, <= 2 thorough)
 //vf: qtimeout=30s deadline=8m t.deadline=40m
 func ZZ_C14_MergeIsUnion() {
 	p := zzPrecSmall()
-	na, nb := 1+zzvf.Choose(2), zzvf.Choose(2)
+	na, nb := 1, zzvf.Choose(2)
 	if zzvf.Thorough() {
 		na, nb = zzvf.Choose(3), zzvf.Choose(3)
 	}
